@@ -5,7 +5,7 @@ Only REAL library objects are built here; nothing of hexital is re-implemented.
 """
 from __future__ import annotations
 
-from datetime import timedelta
+from datetime import datetime, timedelta
 
 import hexital
 from hexital import indicators as hx_ind
@@ -193,6 +193,13 @@ def sample_spec(rng, cls_name=None, allow_amorph=True, max_period=20, round_valu
 # the stream is timezone-AWARE.  Buckets are defined on the timestamps' own wall-clock axis, so every
 # reference model is unchanged.  Set and reset by the executors that sample this dimension.
 TZ_OFFSET_MIN = None
+# When set, timestamps are instances of a trivial datetime SUBCLASS (what data frames hand over: pandas.Timestamp
+# is one); they are datetimes in every respect.
+STAMP_SUBCLASS = False
+
+
+class Stamp(datetime):
+    pass
 
 
 def stamp(seconds):
@@ -201,6 +208,8 @@ def stamp(seconds):
         from datetime import timezone
 
         t = t.replace(tzinfo=timezone(timedelta(minutes=TZ_OFFSET_MIN)))
+    if STAMP_SUBCLASS:
+        t = Stamp(t.year, t.month, t.day, t.hour, t.minute, t.second, tzinfo=t.tzinfo)
     return t
 
 
